@@ -222,4 +222,113 @@ theorem findAndDelete_eq (cap : Captured) (script b : Bytes) (hb : PushPat b) :
     rw [this]
     simp [fadPending, Ref.findAndDelete, hb.ne_nil]
 
+/-! ### the pattern `CScript([sig])` -/
+
+theorem pushEnc_pat (d : Bytes) (h : d.length < 2 ^ 32) : PushPat (Ref.pushEnc d) := by
+  unfold Ref.pushEnc
+  by_cases h1 : d.length < 0x4c
+  · refine ⟨d.length, d, by omega, ⟨by omega, fun _ => rfl, by intro h; omega, by intro h; omega⟩, ?_⟩
+    simp [h1, encBytes, lenWidth, leBytes]
+  · by_cases h2 : d.length ≤ 0xff
+    · refine ⟨0x4c, d, by omega, ⟨by omega, by intro h; omega, by intro _ _; simp [lenWidth]; omega,
+        by intro h; omega⟩, ?_⟩
+      have : d.length % 256 = d.length := Nat.mod_eq_of_lt (by omega)
+      simp [h1, h2, encBytes, lenWidth, leBytes, this]
+    · by_cases h3 : d.length ≤ 0xffff
+      · refine ⟨0x4d, d, by omega, ⟨by omega, by intro h; omega, by intro _ _; simp [lenWidth]; omega,
+          by intro h; omega⟩, ?_⟩
+        simp [h1, h2, h3, encBytes, lenWidth]
+      · refine ⟨0x4e, d, by omega, ⟨by omega, by intro h; omega, by intro _ _; simp [lenWidth]; omega,
+          by intro h; omega⟩, ?_⟩
+        simp [h1, h2, h3, encBytes, lenWidth]
+
+theorem encodeOpPushdata_eq (d : Bytes) (h : d.length < 2 ^ 32) :
+    encodeOpPushdata d = .ok (Ref.pushEnc d) := by
+  unfold encodeOpPushdata Ref.pushEnc
+  by_cases h1 : d.length < 0x4c
+  · simp [h1]
+  · by_cases h2 : d.length ≤ 0xff
+    · simp [h1, h2]
+    · by_cases h3 : d.length ≤ 0xffff
+      · simp [h1, h2, h3]
+      · have h4 : d.length ≤ 0xffffffff := by omega
+        simp [h1, h2, h3, h4]
+
+/-! ### a leading OP_CODESEPARATOR, and parse preservation -/
+
+theorem rawStep_codesep (idx : Nat) (code : Bytes) :
+    rawStep idx ((0xab : UInt8) :: code) = some (.op ⟨0xab, none, idx⟩ code) := by
+  simp [rawStep]
+
+theorem rawIter_codesep_tail (code : Bytes) : (rawIter ((0xab : UInt8) :: code)).2 = (rawIter code).2 := by
+  rw [rawIter, rawIterFrom_op (rawStep_codesep 0 code)]
+  exact rawIterFrom_tail_indep 0 code _
+
+/-- the model keeps the separator in front of the subscript; `FindAndDelete` leaves it there -/
+theorem fadLoop_codesep {b : Bytes} (hb : PushPat b) (code : Bytes) :
+    Ref.fadLoop b ((0xab : UInt8) :: code) = 0xab :: Ref.fadLoop b code := by
+  have hp : ¬ b <+: (0xab : UInt8) :: code := by
+    obtain ⟨opc, v, hle, wf, rfl⟩ := hb
+    intro h
+    obtain ⟨t, ht⟩ := h
+    simp only [encBytes, if_true, List.cons_append, List.cons.injEq] at ht
+    have := congrArg UInt8.toNat ht.1
+    rw [u8_toNat_ofNat wf.1] at this
+    have h2 : (0xab : UInt8).toNat = 0xab := rfl
+    omega
+  have hg : Ref.getOp ((0xab : UInt8) :: code) = some (0xab, [], code) := by simp [Ref.getOp]
+  rw [fadLoop_keep hp hg]
+  simp
+
+/-- deleting whole operations from a script that parses leaves a script that parses -/
+theorem fadLoop_parses (b : Bytes) (hb : PushPat b) (idx : Nat) (s : Bytes) :
+    (rawIterFrom idx s).2 = none → ∀ j, (rawIterFrom j (Ref.fadLoop b s)).2 = none := by
+  induction idx, s using rawIterFrom.induct with
+  | case1 idx s h =>
+    intro _ j
+    have hnil := rawStep_getOp idx s
+    rw [h] at hnil
+    subst hnil
+    rw [fadLoop_nil hb, rawIterFrom_none (by simp [rawStep])]
+  | case2 idx s e h =>
+    intro he
+    rw [rawIterFrom_err h] at he
+    cases he
+  | case3 idx s o rest h ops e heq ih =>
+    intro he j
+    rw [rawIterFrom_op h] at he
+    have hf := rawStep_getOp idx s
+    rw [h] at hf
+    obtain ⟨hget, _, _, _, _, _⟩ := hf
+    by_cases hp : b <+: s
+    · rw [fadLoop_match hb hp hget]; exact ih he j
+    · rw [fadLoop_keep hp hget]
+      obtain ⟨hs, hwf⟩ := getOp_enc hget
+      have hlen : s.length - rest.length = (encBytes o.opcode (decide (o.opcode ≤ 0x4e)) (o.data.getD [])).length := by
+        rw [hs]; simp
+      have htake : s.take (s.length - rest.length) = encBytes o.opcode (decide (o.opcode ≤ 0x4e)) (o.data.getD []) := by
+        rw [hlen, hs, List.take_left]
+      rw [htake]
+      have hg2 := getOp_encBytes o.opcode (o.data.getD []) (Ref.fadLoop b rest) hwf
+      have hf2 := rawStep_getOp j (encBytes o.opcode (decide (o.opcode ≤ 0x4e)) (o.data.getD []) ++ Ref.fadLoop b rest)
+      cases hr : rawStep j (encBytes o.opcode (decide (o.opcode ≤ 0x4e)) (o.data.getD []) ++ Ref.fadLoop b rest) with
+      | none =>
+        rw [hr] at hf2
+        rw [hf2] at hg2
+        simp [Ref.getOp] at hg2
+      | some st =>
+        cases st with
+        | err e' =>
+          rw [hr] at hf2
+          rw [hf2.2] at hg2
+          cases hg2
+        | op o' r' =>
+          rw [hr] at hf2
+          obtain ⟨hget', _⟩ := hf2
+          rw [hg2] at hget'
+          simp only [Option.some.injEq, Prod.mk.injEq] at hget'
+          obtain ⟨_, _, hr'⟩ := hget'
+          rw [rawIterFrom_op hr, ← hr']
+          exact ih he _
+
 end BtcVerif.Model.ScriptEval
